@@ -459,6 +459,8 @@ def c05(tier, seed):
     scs = canvas_gen("C05", v, "clip", 2, 12 if th else 5, salt=seed)
     scs += canvas_gen("C05", v, "clip", 3, 2 if th else 1, salt=seed + 1) if th else []
     scs += canvas_gen("C05", v, "clip", 5, 3, draws=2, simulate=5000 if th else 900, depth=9, seed=seed, salt=seed)
+    # clips in force while drawing inside a layer at an offset (the clip mask is surface-sized, the layer is not)
+    scs += canvas_gen("C05", v, "layerclip", 3, 6 if th else 2, salt=seed + 2)
     scs += drive("C05", "canvas", seed + 200, 2500 if th else 300)
     v.exhaustive = True
     scs += repo_test_scenarios("C05", v)
@@ -747,6 +749,38 @@ def c04(tier, seed):
     return v.finish()
 
 
+DRIFT_STYLES = [{"width": 3, "cap": "Butt", "join": "Miter", "miter": [4, 1]},
+                {"width": 3, "cap": "Round", "join": "Round", "miter": [4, 1]},
+                {"width": 2, "cap": "Square", "join": "Bevel", "miter": [4, 1]}]
+
+
+def dash_drift_scenarios(v, seed, n, cap):
+    """Output-level binding of the dasher: for n inputs (1-3 subpaths, dash arrays of 1-4 entries, offsets of both signs) the
+    polylines returned by dash_path are compared by TLC (Trace_DashOps) with the pieces Dash.tla prescribes.  A difference is
+    not a verdict (the property is about pixels): every differing input is turned into rendered scenarios (three styles,
+    scale 2) that the per-pixel validation below decides.  On the repaired tree no input differs."""
+    ds = drive("C09", "dashops", seed, n)
+    tp = execute("C09", "dashops", ds)
+    t = validate("C09", "Trace_DashOps", tp, workers=12, timeout=3000)
+    v.add_tlc(t)
+    drift = t.tuples("DRIFT")
+    v.extra["dash_output_binding"] = {"inputs": len(ds), "pieces_differ": len(drift), "skipped": len(t.tuples("SKIP")) + len(t.tuples("NOOPS"))}
+    out = []
+    for tup in drift[:cap]:
+        sc = ds[tup[1] - 1]
+        for k, st in enumerate(DRIFT_STYLES):
+            s2 = dict(sc)
+            s2.pop("render", None)
+            s2["id"] = "%s-drift-%d" % (sc["id"], k)
+            s2["w"], s2["h"] = 52, 52
+            s2["ctm"] = {"m": [2, 0, 0, 2, 0, 0], "mden": 1}
+            s2["style"] = dict(st, dash=sc["style"]["dash"], dash_offset=sc["style"]["dash_offset"])
+            out.append(s2)
+    if drift:
+        log("[C09] dash_path output differs from Dash.tla pieces on %d of %d inputs; %d rendered scenarios added" % (len(drift), len(ds), len(out)))
+    return out
+
+
 @prop("C09")
 def c09(tier, seed):
     v = Verdicts("C09", tier, seed)
@@ -778,10 +812,51 @@ def c09(tier, seed):
     scs += s1
     scs += drive("C09", "dash", seed, 2000 if th else 250)
     scs += known_scenarios("C09", "stroke")
+    scs += dash_drift_scenarios(v, seed, 400000 if th else 30000, 600 if th else 60)
     v.exhaustive = th
     simple_validate("C09", v, scs, "all", "Trace_Dash", sigfn=stroke_sig, timeout=3000)
     v.samples = [scs[0], scs[-1]]
     return v.finish()
+
+
+def curve_edge_binding(v, seed, th):
+    """Function-level binding of the rasteriser's curve edges (CurveEdge.tla): the subdivision shift of many large
+    y-monotonic quadratics and the complete per-row x positions of smaller ones, as produced by the real add_edge / step
+    (hook verif_curve_edge), are compared by TLC with the I-level transcription and with the true curve.  A difference is
+    not a verdict: the differing edges (largest predicted flattening error first) are rendered as filled shapes and
+    returned as scenarios for the per-pixel validation.  On the repaired tree nothing differs."""
+    out = []
+    stats = {}
+    for fam, n in (("curveedge-shift", 2000 if th else 300), ("curveedge", 400 if th else 25)):
+        ds = drive("C08", fam, seed, n)
+        tp = execute("C08", fam, ds)
+        t = validate("C08", "Trace_CurveEdge", tp, workers=12, timeout=3000)
+        v.add_tlc(t)
+        recs = read_ndjson(tp)
+        cand = []
+        for tag in ("DRIFT", "FAR"):
+            for tup in t.tuples(tag):
+                sc, rec = ds[tup[1] - 1], recs[tup[1] - 1]
+                for j in sorted(tup[2]):
+                    e = sc["edges"][j - 1]
+                    sh = rec["res"][j - 1]["shift"]
+                    d2 = max(abs(2 * e[2] - e[0] - e[4]), abs(2 * e[3] - e[1] - e[5])) / 4.0
+                    cand.append((d2 / (8.0 * 4 ** max(sh, 1)) if sh >= 0 else 1e9, tag, e))
+        stats[fam] = {"edges": sum(len(s["edges"]) for s in ds), "differ": len(cand), "undecided_overflow": len(t.tuples("OVF"))}
+        cand.sort(key=lambda c: -c[0])
+        for k, (err, tag, e) in enumerate(cand[:24 if th else 8]):
+            xs, ys = [e[0], e[2], e[4]], [e[1], e[3], e[5]]
+            ox, oy = min(xs) // 4 - 6, min(ys) // 4 - 6
+            w, h = max(xs) // 4 - ox + 8, max(ys) // 4 - oy + 8
+            f = lambda val, o: val / 4.0 - o
+            out.append({"id": "curveedge-%s-%s-%d-%d" % (tag, fam, seed, k), "fam": "stroke", "kind": "fill", "w": w, "h": h, "den": 1,
+                        "ops": [["M", f(e[0], ox), f(e[1], oy)], ["Q", f(e[2], ox), f(e[3], oy), f(e[4], ox), f(e[5], oy)]],
+                        "rule": "NonZero", "ctm": {"m": [1.0, 0.0, 0.0, 1.0, 0.0, 0.0], "mden": 1}, "quantize": True,
+                        "stride": max(1, min(w, h) // 40)})
+    v.extra["curve_edge_binding"] = stats
+    if out:
+        log("[C08] curve edges of the code differ from CurveEdge.tla / the true curve: %s; %d rendered scenarios added" % (stats, len(out)))
+    return out
 
 
 @prop("C08")
@@ -808,6 +883,15 @@ def c08(tier, seed):
     # non-lattice geometry: arbitrary control points, arcs, arbitrary invertible transforms (rotation by any angle, anisotropic
     # scale, shear, mirror); the harness quantises the true outline to 1/1024 px (abstraction function) for ClassifyFill
     scs += drive("C08", "curve-float", seed, 600 if th else 40)
+    # curves long enough for the subdivision count to matter (64 x 64 surface, every third pixel decided)
+    scs += drive("C08", "curve-big", seed, 300 if th else 12)
+    scs += drive("C08", "curve-sweep", seed, 256 if th else 24)
+    scs += curve_edge_binding(v, seed, th)
+    # design level: the curve-edge machine (CurveEdge.tla) tracks the true quadratic within 3/4 px on every sample row and its
+    # subdivision count bounds the flattening error by 1/2 px, for every y-monotonic edge on a lattice (sub-pixel phase by seed)
+    r = run_tlc("C08", "MC_CurveEdge", env={"MAXC": 192 if th else 96, "STEP": 24 if th else 16, "OFFS": (seed * 3) % 16}, workers=12, timeout=3000)
+    v.add_tlc(r)
+    v.extra["ip_refinement"] = "MC_CurveEdge: CurveEdge.tla (compute_curve_steps, forward differences, ActiveEdge::step) within 3/4 px of the true curve on %d edges" % r.distinct
     v.exhaustive = False
     simple_validate("C08", v, scs, "all", "Trace_Curve", sigfn=lambda sc, tup: {"fam": "curve", "kind": sc.get("kind")}, timeout=3000)
     v.samples = [scs[0], scs[-1]]
